@@ -290,7 +290,8 @@ class Check:
     # --- finishing -------------------------------------------------------------------------
     def finish(self) -> int:
         wall = time.time() - self.t0
-        os.makedirs(os.path.join(VERIF, "evidence", "replay"), exist_ok=True)
+        evdir = os.environ.get("VERIF_EVIDENCE_DIR") or os.path.join(VERIF, "evidence")
+        os.makedirs(os.path.join(evdir, "replay"), exist_ok=True)
         lines = []
         # group violations by signature so the output stays readable
         seen = {}
@@ -300,7 +301,7 @@ class Check:
         n = 0
         for key, vs in seen.items():
             n += 1
-            path = os.path.join(VERIF, "evidence", "replay", f"{self.pid}_{n}.json")
+            path = os.path.join(evdir, "replay", f"{self.pid}_{n}.json")
             with open(path, "w") as f:
                 json.dump({"property": self.pid, "sig": vs[0]["sig"], "text": vs[0]["text"],
                            "count": len(vs), "cases": [v["case"] for v in vs[:5]]}, f, indent=1, default=str)
@@ -328,7 +329,7 @@ class Check:
         ev = {"property_id": self.pid, "tier": self.tier, "seed": int(self.seed), "level": self.level,
               "coverage": cov, "assumptions": self.assumptions, "wall_s": round(wall, 2),
               "violations": len(seen)}
-        evp = os.path.join(VERIF, "evidence", f"{self.pid}.json")
+        evp = os.path.join(evdir, f"{self.pid}.json")
         with open(evp, "w") as f:
             json.dump(ev, f, indent=1, default=str)
         try:
